@@ -8,7 +8,7 @@ Open Scope Z_scope.
 Inductive ext_block : Type :=
 | XNone
 | XOne (items : list item)
-| XTwo (items : list item)
+| XTwo (appbits : Z) (items : list item)   (* RFC 8285 4.3: 0x100 followed by four application bits *)
 | XLegacy (profile : Z) (body : list Z).
 
 Record wire : Type := mkWire {
@@ -27,7 +27,7 @@ Definition block_body (b : ext_block) : list Z :=
   match b with
   | XNone => []
   | XOne items => enc_items false items
-  | XTwo items => enc_items true items
+  | XTwo _ items => enc_items true items
   | XLegacy _ body => body
   end.
 
@@ -35,7 +35,7 @@ Definition block_profile (b : ext_block) : Z :=
   match b with
   | XNone => 0
   | XOne _ => 48862
-  | XTwo _ => 4096
+  | XTwo appbits _ => 4096 + appbits
   | XLegacy p _ => p
   end.
 
@@ -63,8 +63,8 @@ Definition wf_block (b : ext_block) : Prop :=
   match b with
   | XNone => True
   | XOne items => Forall wf_item1 items
-  | XTwo items => Forall wf_item2 items
-  | XLegacy p _ => 0 <= p < 65536 /\ p <> 48862 /\ p <> 4096
+  | XTwo appbits items => 0 <= appbits < 16 /\ Forall wf_item2 items
+  | XLegacy p _ => 0 <= p < 65536 /\ p <> 48862 /\ ~ (4096 <= p < 4112)
   end
   /\ zlen (block_body b) mod 4 = 0 /\ zlen (block_body b) / 4 < 65536.
 
@@ -80,7 +80,7 @@ Definition wf_wire (w : wire) : Prop :=
 Definition block_elems (b : ext_block) : list ext :=
   match b with
   | XNone => []
-  | XOne items | XTwo items => elems items
+  | XOne items | XTwo _ items => elems items
   | XLegacy _ body => [mkExt 0 body]
   end.
 
